@@ -33,6 +33,12 @@ def _typed_coerce(
     return _coerce
 
 
+def _parse_bool(value: Any) -> bool:
+    if isinstance(value, (list, tuple, dict)):
+        raise ValueError('Boolean cannot represent non scalar value "%s"' % value)
+    return bool(value)
+
+
 _coerce_bool_node = _typed_coerce(bool, _ast.BooleanValue)
 
 
@@ -40,7 +46,7 @@ Boolean = ScalarType(
     "Boolean",
     description="The `Boolean` scalar type represents `true` or `false`.",
     serialize=bool,
-    parse=bool,
+    parse=_parse_bool,
     parse_literal=_coerce_bool_node,
 )
 
@@ -138,6 +144,8 @@ Float = ScalarType(
 def _parse_string(value: Any) -> str:
     if isinstance(value, (list, tuple)):
         raise ValueError('String cannot represent list value "%s"' % value)
+    if isinstance(value, dict):
+        raise ValueError('String cannot represent object value "%s"' % value)
     return str(value)
 
 
@@ -162,6 +170,12 @@ String = ScalarType(
     parse_literal=_coerce_string_node,
 )  # type: ScalarType
 
+def _parse_id(value: Any) -> str:
+    if isinstance(value, (list, tuple, dict)):
+        raise ValueError('ID cannot represent non scalar value "%s"' % value)
+    return str(value)
+
+
 _coerce_id_node = _typed_coerce(str, _ast.StringValue, _ast.IntValue)
 
 
@@ -176,7 +190,7 @@ ID = ScalarType(
         "an ID."
     ),
     serialize=str,
-    parse=str,
+    parse=_parse_id,
     parse_literal=_coerce_id_node,
 )
 
